@@ -172,7 +172,7 @@ func numericBad(g *gen, k kind) bad {
 
 func isNumeric(k kind) bool {
 	switch k {
-	case kInt, kTTL, kOff, kCount, kScore, kBit, kSRange, kLex, kLon, kLat, kRad:
+	case kInt, kTTL, kOff, kIdx, kCount, kScore, kBit, kSRange, kLex, kLon, kLat, kRad:
 		return true
 	}
 	return false
